@@ -39,7 +39,7 @@ namespace sim {
 
 Sim *g = nullptr;
 const char *fault_kind_name[] = {"io-error", "open-error", "close-error", "sync-error", "setsize-error",
-                                 "delete-error", "setview-error", "posix-short-io"};
+                                 "delete-error", "setview-error", "posix-short-io", "io-error-zero-byte"};
 
 // ------------------------------------------------------------------ globals swap
 struct Region { char *lo, *hi; };
